@@ -283,3 +283,43 @@ func (g *BadC5Wait) Close() {
 	defer g.mu.Unlock()
 	g.wg.Wait()
 }
+
+// ---- C6 -------------------------------------------------------------------------------------------------------
+
+type rmwStats struct{ sent, lost int }
+
+type rmw struct {
+	mu    sync.Mutex
+	total int
+	stats *rmwStats
+}
+
+func bump(s rmwStats, n int) rmwStats { s.sent += n; return s }
+
+func (r *rmw) GoodC6Add(n int) {
+	r.mu.Lock()
+	defer r.mu.Unlock()
+	r.total = r.total + n
+	*r.stats = bump(*r.stats, n)
+}
+
+// BadC6Split reads under the lock, computes outside it, and writes the result back under the lock again.
+func (r *rmw) BadC6Split(n int) {
+	r.mu.Lock()
+	snapshot := *r.stats
+	r.mu.Unlock()
+	next := bump(snapshot, n)
+	r.mu.Lock()
+	*r.stats = next
+	r.mu.Unlock()
+}
+
+func (r *rmw) BadC6Scalar(n int) {
+	r.mu.Lock()
+	t := r.total
+	r.mu.Unlock()
+	t += n
+	r.mu.Lock()
+	r.total = t
+	r.mu.Unlock()
+}
